@@ -18,8 +18,6 @@
 #include "sym.h"
 #include "arrstrm.h"
 
-/* stub: evstrm.c calls echs_evstrm_seria from seria_evmux only */
-void echs_evstrm_seria(int w, echs_const_evstrm_t s) { (void)w; (void)s; }
 
 #if defined VERIF_CBMC && !defined REAL_MALLOC
 /* typed allocator stand-in: CBMC models malloc(sizeof(hdr) + n * sizeof(ev)) as
